@@ -843,9 +843,9 @@ def jobs(tier):
     def job(h, fn, req, **p):
         out.append({'harness': h, 'fn': fn, 'params': p, 'requires': req})
 
-    def few(d):
+    def few(d, span=(0, 1, 2, 3)):
         # the full range of tie alignments is explored in grid (1); the other grids use the ones around the hand-over
-        return {'hops': [0, 1, 2, 3]} if d in ('tie', 'tie_refused') else {}
+        return {'hops': list(span)} if d in ('tie', 'tie_refused') else {}
     job('select_port', h_select_port, ['selected'])
     for o in BACK:
         for shape in ('full', 'short'):
@@ -887,17 +887,17 @@ def jobs(tier):
         for d in directs:
             for i in indirects:
                 job('connect', h_connect, creq, mode=mode, direct=d, indirect=i, addr='given', typ=typs[n % 3], cancel='idle', k_lo=0, k_hi=16,
-                    pin=True, **few(d))
+                    pin=True, **few(d, (1, 2)))
                 n += 1
     # ... and before every single loop step
-    cd = ['fast', 'hang', 'init_hang'] if q else directs
+    cd = ['fast', 'hang', 'init_hang'] if q else [d for d in directs if d != 'tie_refused']
     ci = ['pierce_fast', 'silence'] if q else indirects
     for mode in ('fallback', 'race'):
         for d in cd:
             for i in ci:
                 for a in (['given'] if q else ['given', 'server']):
                     job('connect', h_connect, creq, mode=mode, direct=d, indirect=i, addr=a, typ=typs[n % 3], cancel='step', k_lo=0,
-                        k_hi=48, pin=True, **few(d))
+                        k_hi=48, pin=True, **few(d, (1, 2)))
                 n += 1
     return out
 
